@@ -233,7 +233,7 @@ def fll_documents():
         "sugeno", "",
         input_variables=[fl.InputVariable("a", "", True, -1.0, 1.0, False, [fl.Gaussian("t", 0.0, 0.25)])],
         output_variables=[fl.OutputVariable("o", "", True, -5.0, 5.0, False, False, fl.nan, None, fl.WeightedAverage("TakagiSugeno"),
-                                            [fl.Constant("k", 1.5), fl.Linear("l", [2.0, 0.5]), fl.Function("f", "2*a + 1")])],
+                                            [fl.Constant("k", 1.5), fl.Linear("l", [2.0, 0.5]), fl.Function("f", "2 * ( a + abs ( a ) )"), fl.Function("g", "2 * ( a )")])],
         rule_blocks=[fl.RuleBlock("rb", "", True, None, None, None, fl.Threshold(">=", 0.1),
                                   [fl.Rule.create("if a is t then o is k"), fl.Rule.create("if a is not t then o is l and o is f")])],
     )
@@ -254,6 +254,10 @@ def fll_mutants(doc: str):
                 yield "move-line", moved[:k] + [lines[i]] + moved[k:]
     for i, line in enumerate(lines):
         toks = line.split(" ")
+        if "Function" in toks:  # a formula with one parenthesis deleted is unbalanced: the document must be rejected
+            for k in range(len(toks)):
+                if toks[k] in ("(", ")"):
+                    yield "unbalance-parenthesis", lines[:i] + [" ".join(toks[:k] + toks[k + 1:])] + lines[i + 1:]
         for k in range(len(toks)):
             if not toks[k]:
                 continue
@@ -301,6 +305,10 @@ def check_fll(acc: Acc, text: str, edit: str) -> None:
         acc.cls("fll_rejected" if cls != "RuntimeError" else "fll_rejected_runtime")
     else:
         acc.cls("fll_accepted")
+        if edit == "unbalance-parenthesis":
+            acc.violate("ill-formed-accepted", {"family": "fll", "edit": edit}, case, "rejected", "accepted",
+                        "FLL document whose Function formula has unbalanced parentheses is accepted: " + next((ln.strip() for ln in text.split("\n") if " Function " in ln and ln.count("(") != ln.count(")")), ""))
+            return
         try:
             exported = fl.FllExporter().to_string(obj)
             fl.FllImporter().from_string(exported)
